@@ -1247,8 +1247,9 @@ def run(tier, seed, replay=None):
                   partial=['batch_independence for Newton-Raphson geometries: only the structure is proved (same per-ray '
                            'iteration, batch-wide count k_alone <= k_batch <= max_iter, one extra step moves the point by '
                            '|dz|/|N| < tol/|N|); the bound on the accumulated difference (convergence) is numerical (stream C)',
-                           'caller_arrays_unchanged for the code as it stands: proved for zero vignetting only '
-                           '(caller_arrays_unchanged_partial); false otherwise (caller_arrays_changed_code, finding F3)',
+                           'caller_arrays_unchanged: proved for the `_spec` variant (no write), which is what the repaired '
+                           'tree (78f9163, F3) does; for the `_code` variant of the pinned tree only for zero vignetting '
+                           '(caller_arrays_unchanged_partial), false otherwise (caller_arrays_changed_code)',
                            'analyses enter the model as a fixed list of calls plus pure post-processing; that each analysis '
                            'class has this form is checked on the implementation by clauses (a)-(d), not proved',
                            'get_vig_factor and the launch geometry of generate_rays are opaque pure functions in the model (C03)'],
